@@ -854,6 +854,55 @@ def growers(rng):
     return a.assemble(), feats
 
 
+def every_producer(rng):
+    """A running value X is grown for a few steps and kept at the bottom of the stack; then a handful of opcodes
+    (drawn from *every* opcode that takes operands) are executed with X or a small constant in each operand position.
+    Opcodes that write memory are followed by MLOADs of what they wrote; results are stored, hashed or dropped."""
+    a = evm.Asm()
+    feats = set()
+    a.emit(rng.choice(["CALLVALUE", "CALLER", [4, "CALLDATALOAD"]]))
+    for _ in range(rng.randint(0, 7)):
+        a.emit(rng.choice([["DUP1", "MUL"], ["DUP1", "ADD"], [0, "MSTORE", 0x20, 0, "SHA3"], ["NOT"], ["DUP1", "EXP"],
+                           ["SLOAD"], ["DUP1", "DUP1", "ADDMOD"], ["BALANCE"], ["DUP1", "XOR", "CALLER", "ADD"]]))
+    skip = {"POP", "JUMP", "JUMPI", "RETURN", "REVERT", "SELFDESTRUCT", "STOP", "INVALID", "JUMPDEST"}
+    cands = sorted(n for (n, pops, pushes) in evm.OPS.values()
+                   if pops >= 1 and n not in skip and not n.startswith(("DUP", "SWAP", "PUSH")))
+    depth = 1  # X
+    for _ in range(rng.randint(1, 6)):
+        name = rng.choice(cands)
+        _, pops, pushes = evm.OPS[evm.NAME2BYTE[name]]
+        feats.add("op:" + name)
+        big_pos = rng.randrange(pops + 1)  # == pops: no operand is X
+        # operands are pushed deepest first; position 0 is the top of the stack when the opcode runs
+        for pos in reversed(range(pops)):
+            if pos == big_pos and depth <= 16:
+                a.emit("DUP%d" % depth)
+            else:
+                a.emit(rng.choice([0, 1, 4, 32, 33, 64, 96, 31]))
+            depth += 1
+        a.emit(name)
+        depth += pushes - pops
+        writes_mem = name in ("CALLDATACOPY", "CODECOPY", "RETURNDATACOPY", "EXTCODECOPY", "MSTORE", "MSTORE8", "CALL",
+                              "CALLCODE", "DELEGATECALL", "STATICCALL")
+        if pushes:
+            how = rng.random()
+            if how < 0.4:
+                a.emit("POP")
+                depth -= 1
+            elif how < 0.7:
+                a.emit(rng.randrange(4), "SSTORE")
+                depth -= 1
+            elif depth > 12:
+                a.emit("POP")
+                depth -= 1
+        if writes_mem or rng.random() < 0.2:
+            for off in rng.sample([0, 1, 4, 31, 32, 33, 64, 96], rng.randint(1, 3)):
+                a.emit(off, "MLOAD", rng.choice([["POP"], [rng.randrange(4), "SSTORE"]]))
+            feats.add("mload-after-write")
+    a.emit(rng.choice([["STOP"], [0x40, 0, "RETURN"], [0x40, 0, "SHA3", 0, "SSTORE", "STOP"], [0x20, 0, "LOG0", "STOP"]]))
+    return a.assemble(), feats
+
+
 def sinks(rng, B):
     """Stack-aware programs that put boundary constants into *sink positions*: shift amounts, exponents, memory
     offsets and sizes of SHA3/RETURN/REVERT/LOG/CALL*/CREATE*/xCOPY/MLOAD/MSTORE, jump targets, storage keys and slot
@@ -1142,10 +1191,10 @@ def evidence_branches(rng, slots):
     from its own private RNG so that emitting it twice gives identical code."""
     import random
     kinds = ["dynarray", "mapping", "bool-write", "address-write", "masked-write", "packed-write", "numeric-use",
-             "plain-read", "copy-within"]
+             "plain-read", "copy-within", "copy-within", "copy-from-mapping", "copy-from-mapping", "grown-write"]
     out = []
     for s in slots:
-        for k in rng.sample(kinds, rng.randint(1, 3)):
+        for k in sorted(set(rng.sample(kinds, rng.randint(1, 3)))):
             seed = rng.getrandbits(32)
 
             def body(a, s=s, k=k, seed=seed):
@@ -1176,6 +1225,19 @@ def evidence_branches(rng, slots):
                 elif k == "copy-within":
                     o = r.choice(slots)
                     a.emit(o if o else ("push", 0, 1), "SLOAD", sp, "SSTORE")
+                elif k == "copy-from-mapping":
+                    # slot = mapping_o[grown key]: with a large key (or a small value-size limit) the loaded value is
+                    # one the VM replaces by an opaque value
+                    o = r.choice(slots)
+                    a.emit(4, "CALLDATALOAD")
+                    for _ in range(r.choice([0, 1, 3, 5, 6, 7])):
+                        a.emit("DUP1", r.choice(["ADD", "MUL"]))
+                    a.emit(0, "MSTORE", o if o else ("push", 0, 1), 0x20, "MSTORE", 0x40, 0, "SHA3", "SLOAD", sp, "SSTORE")
+                elif k == "grown-write":
+                    a.emit(r.choice(["CALLVALUE", [4, "CALLDATALOAD"]]))
+                    for _ in range(r.choice([1, 3, 6, 8])):
+                        a.emit("DUP1", r.choice(["ADD", "MUL"]))
+                    a.emit(sp, "SSTORE")
                 a.emit("STOP")
             out.append(body)
     return out
